@@ -253,9 +253,15 @@ func Run(r *rt.Run) error {
 			x.run(kase{n: Bin(op, a, b), entries: t44, runs: histories(len(t44), 3, 'E'), family: "history"})
 		}
 	}
+	// length 3 over all six typings of both references
+	long3 := []string{"+", "/"}
 	if thorough {
-		for _, op := range []string{"+", "*", "/"} {
-			x.run(kase{n: Bin(op, a, b), entries: t66, runs: histories(len(t66), 3, 0), pol: polTyped, family: "history"})
+		long3 = []string{"+", "-", "*", "/", "%", "<", "==", "AND"}
+	}
+	for i, op := range long3 {
+		x.run(kase{n: Bin(op, a, b), entries: t66, runs: histories(len(t66), 3, 0), pol: polTyped, family: "history"})
+		if thorough && i < 5 {
+			x.run(kase{n: Bin(op, a, b), entries: t66, runs: histories(len(t66), 3, 'E'), family: "history"})
 		}
 	}
 	// Type() and EvalBool interleaved with the typed calls (both touch the cached operand types)
@@ -275,6 +281,9 @@ func Run(r *rt.Run) error {
 
 	// ---- D: depth 2: two caches, a cache under a unary / call / comparison / static node ----
 	t333 := scopes3(typ3, typ3, typ3)
+	if thorough {
+		t333 = scopes3(typ4, typ4, typ4)
+	}
 	innerOps := arithOps
 	outerOps := []string{"+", "*", "/", "<", "=="}
 	if !thorough {
@@ -330,6 +339,14 @@ func Run(r *rt.Run) error {
 		}
 		x.run(kase{n: n, entries: s1, runs: rr, family: "stateful"})
 	}
+	if thorough {
+		// length 4 with every copy assignment for the expressions where the cache and the function state meet
+		s4 := scopes1("a", []V{Int(2), Flt(2), Dur(time.Second), Bool(false), Missing})
+		for _, n := range []*N{Bin("*", cnt, a), Bin("*", a, cnt), Bin("AND", a, Bin(">", cnt, Lit(Int(1)))), Call("if", a, cnt, Lit(Int(0))),
+			Bin("+", Call("spread", a), a), Bin(">", Call("sigma", a), Lit(Flt(0.5))), Lam(Bin("+", cnt, a)), Bin("==", Lam(Bin("<", cnt, Lit(Int(2)))), a)} {
+			x.run(kase{n: n, entries: s4, runs: withCopies(histories(len(s4), 4, 'E')), family: "stateful"})
+		}
+	}
 
 	// ---- P: EvalPredicate / fillScope: fields, tags, time, missing, field+tag collision ----
 	fieldVals := []V{Int(0), Int(2), Flt(0.5), Flt(2), Str("a"), Str("b"), Bool(true), Bool(false)}
@@ -370,9 +387,9 @@ func Run(r *rt.Run) error {
 	}
 
 	// ---- R: seeded random ASTs of depth 3 with random histories ----
-	nRandom := 1500
+	nRandom := 2500
 	if thorough {
-		nRandom = 12000
+		nRandom = 30000
 	}
 	g := &gen{r: rnd}
 	for i := 0; i < nRandom; i++ {
